@@ -50,26 +50,35 @@ def reqsEq (A B : Reqs) : Bool :=
 
 def sortS (l : List String) : List String := (l.toArray.qsort (· < ·)).toList
 
-/-- the churn applied to the scenario (the specification judges the command against the cluster as it is when
+/-- one change applied to the scenario (the specification judges the command against the cluster as it is when
     the command is released) -/
-def applyChurn (s : Scenario) (ch : Option Json) : Except String Scenario := do
+def applyChurn1 (s : Scenario) (c : Json) : Except String Scenario := do
+  let kind ← strF c "kind"
+  match kind with
+  | "pod" => do let p ← pod (← fld c "pod"); pure { s with pods := s.pods ++ [p] }
+  | "bound" => do
+    let p ← pod (← fld c "pod")
+    let nn ← strF c "node"
+    pure { s with nodes := s.nodes.map (fun n => if n.name == nn then { n with pods := n.pods ++ [p] } else n) }
+  | "unavail" => do
+    let itn ← strF c "it"
+    pure { s with its := s.its.map (fun it => if it.name == itn then { it with offerings := it.offerings.map (fun o => { o with available := false }) } else it) }
+  | "delnode" => do
+    let nn ← strF c "node"
+    pure { s with nodes := s.nodes.map (fun n => if n.name == nn then { n with deleting := true } else n) }
+  -- a nomination changes no object of the cluster (it is state of the autoscaler)
+  | "nominate" => pure s
+  | k => throw s!"bad churn {k}"
+
+/-- the change and the changes delivered with it (`also`), in order -/
+def churnEvents (c : Json) : List Json :=
+  c :: (match fldOpt c "also" with | some (.arr a) => a.toList | _ => [])
+
+/-- the churn applied to the scenario -/
+def applyChurn (s : Scenario) (ch : Option Json) : Except String Scenario :=
   match ch with
   | none => pure s
-  | some c =>
-    let kind ← strF c "kind"
-    match kind with
-    | "pod" => do let p ← pod (← fld c "pod"); pure { s with pods := s.pods ++ [p] }
-    | "bound" => do
-      let p ← pod (← fld c "pod")
-      let nn ← strF c "node"
-      pure { s with nodes := s.nodes.map (fun n => if n.name == nn then { n with pods := n.pods ++ [p] } else n) }
-    | "unavail" => do
-      let itn ← strF c "it"
-      pure { s with its := s.its.map (fun it => if it.name == itn then { it with offerings := it.offerings.map (fun o => { o with available := false }) } else it) }
-    | "delnode" => do
-      let nn ← strF c "node"
-      pure { s with nodes := s.nodes.map (fun n => if n.name == nn then { n with deleting := true } else n) }
-    | k => throw s!"bad churn {k}"
+  | some c => (churnEvents c).foldlM applyChurn1 s
 
 /-- does the real command agree with the model's decision?  Relational where the code may choose
     (the order among price ties decides which options survive the spot-to-spot cut). -/
@@ -281,6 +290,88 @@ def opCompute (inp impl : Json) : Except String Resp := do
     let cands := scenarioCandidates s { existing := results.existing, claims := cmd.repl, errors := results.errors }
     pure (specVerdict (Karp.Spec.Consolidation.commandOK s ridKey gate infos cmd cands) ok why)
 
+/-- the reschedulable pods of a node as the model's `isEmpty` reads them -/
+def podCosts (infos : List Karp.Spec.Consolidation.PodInfo) (n : Scn.Node) : List Karp.Consolidate.PodCost :=
+  (Karp.Spec.Consolidation.reschedulable infos n).map (fun p => let i := Karp.Spec.Consolidation.infoOf infos p.name; { delCost := i.delCost, prio := i.prio })
+
+/-- `c06.emptyvalidate`: one real `Emptiness.ComputeCommands` call during which the cluster changed while the command
+    waited for validation.  `emptyVal` = what the harness observed on identical fresh worlds: `pre` the candidates of the
+    command handed to the validator, `current` what `GetCandidates` returns after the change and the wait, the budgets and
+    the nominated nodes at that moment.
+    * spec : the RELEASED command against the cluster as it is at release (the `empty` rule);
+    * model: released candidates = `emptinessRelease` (order-free; when a budget binds: a subset of the right size), every
+             released node is empty by the model's `isEmpty`, and — the hypothesis of `C06_empty_release_spec` — every
+             still-valid candidate of the command is empty by `isEmpty`. -/
+def opEmptyValidate (inp impl : Json) : Except String Resp := do
+  if let some e := fldOpt impl "harness_error" then throw s!"harness error: {e.compress}"
+  if (fldOpt impl "panic").isSome then
+    return { allowed := some false, spec := some false, why := "the disruption method panicked", extra := some (jObj [("signature", jStr "panic")]) }
+  let churned ← boolD impl "churned" false
+  -- no command reached validation, or nothing changed: an ordinary Emptiness run
+  if !churned then return (← opRun inp impl)
+  if (← strF impl "err") != "" then
+    return { allowed := some true, spec := some true, why := "ComputeCommands returned an error" }
+  let s0 ← scenario (← fld inp "scn")
+  let gate ← boolD inp "spotToSpot" false
+  let infos ← listF podInfo inp "podExt"
+  let s ← applyChurn s0 (fldOpt inp "churn")
+  let passed ← listF asStr impl "passed"
+  let budget := (← intO inp "budget").getD 1
+  let ev ← fld impl "emptyVal"
+  let preKnown ← boolF ev "preKnown"
+  let pre0 ← listF asStr ev "pre"
+  let current ← listF asStr ev "current"
+  let nominatedL ← listF asStr ev "nominated"
+  let budgets ← match fldOpt ev "budgets" with
+    | some (.obj kvs) => kvs.toList.mapM (fun (k, v) => do pure (k, (← asInt v).toNat))
+    | _ => pure []
+  -- the released command
+  let (released, v) ← match fldOpt impl "cmd" with
+    | none => pure (([] : List String), (none : Karp.Spec.Consolidation.Verdict))
+    | some cj => do
+      let candNames ← (← arrF cj "cands").mapM (fun c => strF c "node")
+      let repl ← listF claimJ cj "repl"
+      let results ← outcome (← fld cj "results")
+      let newClaims ← natF cj "newClaims"
+      let cmd : Karp.Spec.Consolidation.Command :=
+        { method := "empty", cands := candNames, repl := repl.map (fun c => c.toScn),
+          existing := results.existing, errors := results.errors, newClaims := newClaims }
+      let v := if (← strF cj "decision") != "delete" then some ("empty", "an Emptiness command must delete nodes without replacement")
+        else Karp.Spec.Consolidation.commandOK s ridKey gate infos cmd [] (witnessOnly := false)
+      pure (candNames, v)
+  -- the model
+  -- (1) the command handed to the validator: every candidate the method was given passed `ShouldDisrupt`, so it is
+  --     empty, and is selected while its pool's budget lasts
+  let pre := if preKnown then pre0 else passed
+  let why1 := if preKnown && decide ((passed.length : Int) ≤ budget) && sortS pre != sortS passed then
+      s!"model: the command handed to validation holds every candidate {sortS passed}; implementation (no change, same world): {sortS pre}" else ""
+  -- (2) the validator
+  let poolOf (n : String) : String := match s.node? n with | some nd => nd.pool | none => ""
+  let nominated (n : String) : Bool := nominatedL.contains n
+  let exp := Karp.Consolidate.emptinessRelease poolOf nominated budgets pre current
+  let stillValid := (Karp.Consolidate.mapCandidates pre current).filter (fun n => !nominated n)
+  let binding := budgets.any (fun (p, b) => decide (b < (stillValid.filter (fun n => poolOf n == p)).length)) ||
+    stillValid.any (fun n => (budgets.lookup (poolOf n)).isNone)
+  let ok2 := if binding then released.all stillValid.contains && released.length == exp.length && released.eraseDups.length == released.length
+    else sortS released == sortS exp
+  let why2 := if ok2 then "" else
+    s!"model: Emptiness releases the command narrowed to {sortS exp} (computed for {sortS pre}, still candidates after the change: {sortS current}); implementation: {sortS released}"
+  -- (3) the released nodes, and the still-valid candidates, are empty by the model's `isEmpty` on the changed cluster
+  let notEmpty (names : List String) := (names.filterMap s.node?).find? (fun n => !Karp.Consolidate.isEmpty (podCosts infos n))
+  let why3 := match notEmpty released with
+    | some n => s!"model: released node {n.name} is not empty"
+    | none => match notEmpty (Karp.Consolidate.mapCandidates pre current) with
+      | some n => s!"model: node {n.name} is not empty after the change; GetCandidates (Emptiness.ShouldDisrupt) still returns it"
+      | none => ""
+  -- (corpus witnesses) the released nodes the witness documents
+  let why0 ← match fldOpt inp "expectReleased" with
+    | some (.arr a) => do
+      let want ← a.toList.mapM asStr
+      pure (if sortS want == sortS released then "" else s!"the witness documents the release of {sortS want}; the implementation released {sortS released}")
+    | _ => pure ""
+  let why := [why0, why1, why2, why3].foldl (fun acc w => if acc == "" then w else acc) ""
+  pure (specVerdict v (why == "") why)
+
 /-! ### leaf ops -/
 
 def offeringJ (j : Json) : Except String Karp.Consolidate.Offering := do
@@ -370,6 +461,7 @@ def opIsEmpty (inp impl : Json) : Except String Resp := do
 def handle : Handler := fun op inp impl =>
   match op with
   | "c06.single" | "c06.multi" | "c06.empty" | "c06.validate" => opRun inp impl
+  | "c06.emptyvalidate" => opEmptyValidate inp impl
   | "c06.compute" => opCompute inp impl
   | "c06.worst" => opWorst inp impl
   | "c06.remove" => opRemove inp impl
